@@ -66,6 +66,8 @@ def _as_dim(d):
 class PT:
     """pointwise tensor"""
 
+    backend = None          # (name, precision) of the tensor library instance that produced it, when known
+
     def __init__(self, shape, fn, kind="real"):
         self.shape = tuple(_as_dim(d) for d in shape)
         self.fn = fn
@@ -369,7 +371,11 @@ def pointwise(eng, f, kind, *xs):
         return f(*[t.fn(()) for t in ts])
     sh = broadcast_shapes(*[t.shape for t in ts])
     nd = len(sh)
-    return PT(sh, lambda idx: f(*[t.fn(_bidx(t.shape, nd, idx)) for t in ts]), kind)
+    out = PT(sh, lambda idx: f(*[t.fn(_bidx(t.shape, nd, idx)) for t in ts]), kind)
+    tags = {t.backend for t in ts if getattr(t, "backend", None) is not None}
+    if tags:
+        out.backend = tags.pop() if len(tags) == 1 else ("mixed",) + tuple(sorted(map(str, tags)))
+    return out
 
 
 def _num(v, kind):
@@ -495,12 +501,40 @@ NATIVE_STRUCTURAL = {"astensor", "tolist", "shape", "ones", "zeros", "reshape", 
                      "gather", "einsum", "sum", "product", "where", "clip", "abs", "isfinite", "boolean_mask", "outer", "erf", "erfinv"} - {"erf", "erfinv"}
 
 
+def _tag(res, backend):
+    """remember which backend instance produced a tensor (C11: stale tensors are recognisable)"""
+    if isinstance(res, PT):
+        res.backend = backend
+    elif isinstance(res, (list, tuple)):
+        for x in res:
+            _tag(x, backend)
+    return res
+
+
+def _foreign_inputs(args, mine, opname, depth=0):
+    """inputs of a tensor operation that were produced by ANOTHER backend instance (stale tensors): symbolic tensors by their
+    tag, concrete float arrays by a precision that is not the current one (conversions through astensor are exempt)"""
+    import numpy as _np
+    out = set()
+    for x in args:
+        if isinstance(x, PT):
+            if x.backend is not None and x.backend != mine and opname != "astensor":
+                out.add(str(x.backend))
+        elif isinstance(x, _np.ndarray) and opname != "astensor":
+            want = "float64" if mine[1] == "64b" else "float32"
+            if x.dtype.kind == "f" and str(x.dtype) != want:
+                out.add(f"array:{x.dtype}")
+        elif isinstance(x, (list, tuple)) and depth < 3:
+            out |= _foreign_inputs(x, mine, opname, depth + 1)
+    return out
+
+
 class TensorLib:
-    def __init__(self, eng, name="numpy"):
+    def __init__(self, eng, name="numpy", precision="64b"):
         self.eng = eng
         _CURRENT_ENGINE[0] = eng
         self.name = name
-        self.precision = "64b"
+        self.precision = precision
         self.default_do_grad = False
         self.dtypemap = {"float": "float", "int": "int", "bool": "bool"}
         self.used = set()
@@ -509,6 +543,8 @@ class TensorLib:
         from .values import NativeFn
         if name in ("name", "precision", "default_do_grad", "dtypemap"):
             return getattr(self, name)
+        if name == "_setup":
+            return NativeFn("tensorlib._setup", lambda: None)
         m = getattr(self, "op_" + name, None)
         native = getattr(self.native_backend(), name, None)
         if m is None and native is None:
@@ -527,13 +563,15 @@ class TensorLib:
             self.used.add(name)
             import numpy as _np
             a = tuple(x.item() if isinstance(x, (_np.ndarray, _np.generic)) and getattr(x, "ndim", 0) == 0 else x for x in a)
-            return m(*a, **k)
+            mine = (self.name, self.precision)
+            foreign = _foreign_inputs(list(a) + list(k.values()), mine, name) if self.eng.policy.get("track_backend_mixing") else None
+            return _tag(m(*a, **k), mine if not foreign else ("mixed", name) + tuple(sorted(foreign)))
         return NativeFn("tensorlib." + name, dispatch)
 
     def native_backend(self):
         if getattr(self, "_native", None) is None:
             from pyhf.tensor.numpy_backend import numpy_backend
-            self._native = numpy_backend(precision="64b")
+            self._native = numpy_backend(precision=self.precision)
         return self._native
 
     # -- construction / conversion
